@@ -20,6 +20,17 @@ typedef struct { unsigned char v; } atomic_flag;
 
 #define ATOMIC_FLAG_INIT { 0 }
 
+/* memory orders: the model (and its race-freedom theorem) is about seq_cst
+ * atomics only; an operation with a weaker order is performed the same way
+ * here (one OS thread) but is *named* with its order in the trace, so the
+ * correspondence with the model breaks and the directed search runs the
+ * scenarios on real threads under ThreadSanitizer */
+typedef enum {
+    memory_order_relaxed, memory_order_consume, memory_order_acquire,
+    memory_order_release, memory_order_acq_rel, memory_order_seq_cst
+} memory_order;
+void conc_order(memory_order mo);
+
 size_t conc_fetch_add(size_t * obj, size_t v, const char * what, int line);
 size_t conc_fetch_sub(size_t * obj, size_t v, const char * what, int line);
 size_t conc_load(const size_t * obj, const char * what, int line);
@@ -34,5 +45,13 @@ void conc_flag_clear(atomic_flag * obj, const char * what, int line);
 #define atomic_fetch_sub(obj, v)        conc_fetch_sub((obj), (v), #obj, __LINE__)
 #define atomic_flag_test_and_set(obj)   conc_tas((obj), #obj, __LINE__)
 #define atomic_flag_clear(obj)          conc_flag_clear((obj), #obj, __LINE__)
+
+#define atomic_load_explicit(obj, mo)           (conc_order(mo), conc_load((obj), #obj, __LINE__))
+#define atomic_store_explicit(obj, v, mo)       (conc_order(mo), conc_store((obj), (v), #obj, __LINE__))
+#define atomic_fetch_add_explicit(obj, v, mo)   (conc_order(mo), conc_fetch_add((obj), (v), #obj, __LINE__))
+#define atomic_fetch_sub_explicit(obj, v, mo)   (conc_order(mo), conc_fetch_sub((obj), (v), #obj, __LINE__))
+#define atomic_flag_test_and_set_explicit(obj, mo) (conc_order(mo), conc_tas((obj), #obj, __LINE__))
+#define atomic_flag_clear_explicit(obj, mo)     (conc_order(mo), conc_flag_clear((obj), #obj, __LINE__))
+#define atomic_thread_fence(mo)                 ((void)(mo))
 
 #endif
